@@ -606,3 +606,27 @@ Definition C17_round (c : ccfg) (r : round) : option string :=
   | _, _ => None
   end.
 Definition C17_check := check_with C17_round proj_all true.
+
+(* C10, rolling controllers: the finalizer goes only when every revision that is still live after this
+   sync's revision bookkeeping answered finalized (a revision emptied and deleted in this sync has no say) *)
+Definition C10_all_live_revisions_finalized (c : ccfg) (r : round) : option string :=
+  if negb (any_rolling c) then None else
+  match latest_sent c r, k_parent (r_cache r) with
+  | Some sent, Some parent =>
+      let fin := finalizer_name c in
+      if existsb (fun e => match is_api e with
+                           | Some q => targets_parent c parent q && verb_eqb (q_verb q) VUpdate && accepted e &&
+                                       has_finalizer (e_pre e) fin && negb (has_finalizer (e_post e) fin)
+                           | None => false end) (after_hook (r_events r))
+      then
+        if forallb (fun x => match answer_for c sent x (r_events r) with
+                             | Some hr => hr_finalized hr
+                             | None => true end) (revs_after c r sent)
+        then None else Some "finalizer-removed-although-a-live-revision-is-not-finalized"
+      else None
+  | _, _ => None
+  end.
+
+Definition C10_check_r := check_with (fun c r =>
+  orelse (with_parent (fun p => orelse (C10_round c (r_cache r) p (r_events r)) (C10_handoff c (r_events r))) r)
+         (C10_all_live_revisions_finalized c r)) proj_finalizer false.
